@@ -4,7 +4,7 @@ The head is built from a symbolic structure (so the oracle knows the intended pa
 code's own split/trim calls); ClientConnection::{read_next_line, read, next}, parse_request_line, parse_http_version,
 Method/Header/HeaderField::from_str, new_request and the Request accessors are executed from the MIR over the socket model.
 """
-import z3
+import z3, os
 from mirsym.values import *
 from mirsym.harness import *
 from mirsym.interp import RustPanic, Blocked, Unsupported
@@ -156,6 +156,14 @@ def collect_simple(S, rep, prop, name, known=None):
         if (label, key) in seen:
             continue
         seen.add((label, key))
-        rep.violation(Violation(prop, key, '%s/%s violated: %s' % (name, label, str(sc)[:300]), sc, name + '/' + label))
+        v = Violation(prop, key, '%s/%s violated: %s' % (name, label, str(sc)[:300]), sc, name + '/' + label)
+        if key is None and os.environ.get('VERIF_NO_REPLAY') != '1':
+            # only violations that would be reported are replayed (known findings were confirmed natively when recorded)
+            try:
+                from mirsym import replay_net
+                replay_net.confirm(S.L, v)
+            except Exception as e:
+                v.replay_note = 'replay machinery failed: %r' % (e,)
+        rep.violation(v)
         rep.sample(sc)
     S.last_violations = []
